@@ -170,6 +170,14 @@ def run_tlc(module, cfg, consts=None, workers=None, timeout=900, extra=None, sim
     return r
 
 
+def _killpg(pid):
+    import signal
+    try:
+        os.killpg(pid, signal.SIGKILL)
+    except (ProcessLookupError, PermissionError):
+        pass
+
+
 def run_tlapm(module, timeout=1500):
     """Checks the TLAPS proofs of spec/<module>.tla from scratch (no fingerprint cache).  A proof that
     does not go through says something about the specification, never about the code: Infra.
@@ -181,14 +189,20 @@ def run_tlapm(module, timeout=1500):
     t0 = time.time()
     out = ""
     for attempt, (stretch, threads) in enumerate(((3, NCPU), (20, max(2, NCPU // 4)))):
+        # tlapm's back ends (Isabelle's poly in particular) can outlive it and spin: the whole process
+        # group is killed when tlapm is done, whatever the outcome
+        proc = subprocess.Popen(["tlapm", "--threads", str(threads), "--stretch", str(stretch), module + ".tla"], cwd=d,
+                                stdout=subprocess.PIPE, stderr=subprocess.STDOUT, text=True, env=dict(os.environ), start_new_session=True)
         try:
-            p = subprocess.run(["tlapm", "--threads", str(threads), "--stretch", str(stretch), module + ".tla"], cwd=d,
-                               stdout=subprocess.PIPE, stderr=subprocess.STDOUT, text=True, timeout=timeout, env=dict(os.environ))
+            out, _ = proc.communicate(timeout=timeout)
         except subprocess.TimeoutExpired:
+            _killpg(proc.pid)
             raise Infra("tlapm timed out on %s" % module)
-        out = p.stdout or ""
+        finally:
+            _killpg(proc.pid)
+        out = out or ""
         m = re.search(r"All (\d+) obligations? proved", out)
-        if p.returncode == 0 and m:
+        if proc.returncode == 0 and m:
             return dict(module=module, obligations=int(m.group(1)), wall_s=round(time.time() - t0, 2), attempts=attempt + 1)
     raise Infra("tlapm did not prove %s:\n%s" % (module, "\n".join(l for l in out.splitlines() if not l.startswith(("Called", "Raised", "Re-raised")))[-2000:]))
 
